@@ -29,6 +29,11 @@ CHECKS = {
    text="Final states of seeded histories with removals (gaps), id-less annotations/data, all selector kinds and value types and hostile Unicode ids are written to STAM JSON and read back under four output variants; the reloaded store must be observationally identical (items, ids or their absence, order, selector kinds, referenced items, ranges and alignment, typed values, reverse lookups) and writing it again must reproduce the first output (all files for stand-off variants). Held on the stores observed.",
    note="Trusted: obs.rs canonical observation; orphan text selections (used by no annotation) are not part of the model and are ignored; sub-stores are not yet exercised by this check.",
    ref="5/C05"),
+ "C15": dict(
+   technique="runtime monitoring: round-trip differential on stores reached by seeded histories through the STAM CSV files (manifest, annotations table, dataset tables, .txt resources) - canonical observation with values reduced to their text",
+   text="Final states of seeded histories (all selector kinds incl. complex selectors with mixed and range-compressed sub-selectors, end-aligned and relative offsets, gaps, ids without ';') are saved as STAM CSV and loaded again; resources and texts, keys, data ids and value text, annotation ids, data references, targets (kinds, referenced items, absolute ranges, selected text) and every reverse lookup must be equal. Held on the stores observed; the two temp-id findings are recorded.",
+   note="Trusted: obs.rs in value-as-text mode. On stores with gaps, differences in *references* are attributed to the recorded temporary-id finding; stores without gaps are compared in full.",
+   ref="5/C15"),
  "C10": dict(
    technique="runtime monitoring: exactly-once oracle over the event log (shadow model predicts which data handle every request must map to), dedup invariants on the live sets, index-vs-scan differential for every data search route, and an independent reference implementation of the documented DataOperator semantics on a value x operator cross product",
    text="Seeded histories of data insertions through datasets, insert_data and annotations (with/without ids, repeated key/value pairs) and removals of data and keys; after every operation the returned handles are compared with the model's exactly-once prediction, the live sets are scanned for duplicate id-less (key,value) items and duplicate keys, and key.data()/find_data/test_data/data_by_value are compared with a full scan; DataValue::test is compared with a reference written from the doc comments over 25 values x ~100 operators incl. nested Not/And/Or. Held on what was observed.",
